@@ -249,14 +249,15 @@ class Model:
             except SyntaxError as e:
                 raise AnalysisError(f"{path} does not parse: {e}") from e
         # behaviour-preserving canonicalisation of the model's own copy (see sa/normalize.py)
-        from .normalize import closed_class_names, isinstance_to_match, normalize_module
+        from .normalize import aliases_to_captures, loops_to_comprehensions, closed_class_names, isinstance_to_match, normalize_package
 
         closed = closed_class_names(trees)
-        self.inlined = 0
+        self.inlined = normalize_package(trees)
         self.dispatches_converted = 0
         for rel, tree in trees.items():
-            self.inlined += normalize_module(rel, tree)
             self.dispatches_converted += isinstance_to_match(tree, closed)
+            self.inlined += aliases_to_captures(tree)
+            self.inlined += loops_to_comprehensions(tree)
             path = os.path.join(sources.root, PKG_SUBDIR, rel)
             self.modules[rel] = ModuleInfo(rel=rel, path=path, tree=tree, source=sources.files[rel])
         for m in self.modules.values():
